@@ -14,7 +14,7 @@ import ast
 
 from ..flow import walk_no_nested_funcs, assigned_names
 from ..model import AnalysisError, norm_text, FunctionInfo
-from ..expr import SymEval, SArray, Rec, Obj, Opaque, Unsupported, UNK
+from ..expr import SymEval, SArray, Rec, Obj, Opaque, Unsupported, BroadcastError, UNK
 from ..nf import Rat, Alg
 
 
@@ -363,7 +363,11 @@ def _eval_measurement(ctx, c, m, with_altitude, lever, has_rates):
     if 'imu_to_antenna_b' in _all_attrs(c):
         selfo.attrs['imu_to_antenna_b'] = (
             SArray((3,), {(i,): A.sym('l%d' % i) for i in range(3)}) if lever else None)
-    ret = ev.call_function(m, [A.sym('time'), pva, em], {}, selfo)
+    try:
+        ret = ev.call_function(m, [A.sym('time'), pva, em], {}, selfo)
+    except BroadcastError as e:
+        e.where = getattr(ev, 'last_stmt', None)
+        raise
     return ev, ret, em
 
 
@@ -393,6 +397,14 @@ def meas_shape(ctx):
                     try:
                         ev, ret, em = _eval_measurement(ctx, c, m, wa, lever, rates)
                     except Unsupported as e:
+                        if isinstance(e, BroadcastError):
+                            wf, wst = getattr(e, 'where', None) or (m, None)
+                            ctx.ob('MEAS-SHAPE', False, None, '%s: evaluates' % tag, f=wf or m,
+                                   node=wst, key='broadcast-' + tag,
+                                   why='%s: %s: ValueError at run time (a term is combined with '
+                                       'z/H/R in a different row layout than they have at that '
+                                       'point)' % (tag, e))
+                            continue
                         if 'column' in str(e) and 'missing' in str(e):
                             ctx.ob('MEAS-SHAPE', False, None, '%s: evaluates' % tag, f=m,
                                    key='keyerror-' + tag,
